@@ -39,6 +39,9 @@ func init() {
 			{ID: "C15.R20", Text: "a rebalance does not mark the session cancelled: Rebalance closes with Close(false), so recoverable ends of the next session are still reopened or fail the client (same rule as C11.R3)", Run: c11r3},
 			{ID: "C15.R21", Text: "an unresolved ${VAR} stays a literal the type switches refuse: placeholders are replaced only when LookupEnv reports the variable as set (same rule as C17.R4)", Run: c17r4},
 			{ID: "C15.R22", Text: "read-only mode does not hide a failed checkpoint load: the wrapper returns the wrapped store's (documents, exists, error) untouched from exactly one Load with its own arguments (exhaustive)", Run: readOnlyForwardsLoad},
+			{ID: "C15.R23", Text: "fatal stays fatal: the module never calls recover() (positive control: the fatal exits are counted)", Run: neverRecovers},
+			{ID: "C15.R24", Text: "a failed sequence-number query is an error: AsyncOp.Wait reports this operation's own outcome — err≠nil → err, else select{ctx.Done→Cancel, signal}, ctx.Err() — on a record that is not shared with another operation (same rule as C20.R1)", Run: c20r1},
+			{ID: "C15.R25", Text: "a checkpoint beyond the bucket's high sequence number reaches the guard that refuses it: the file backend returns what the file holds, whatever bucket id a document carries (same rule as C02.R15)", Run: fileLoadExact},
 			{ID: "C15.R6", Text: "bounded reopen then fail-stop (same rule as C12.R3)", Run: c12r3},
 		},
 	})
